@@ -109,6 +109,20 @@ def run(ck, facts, tier):
             if s == "program_clauses_that_could_match":
                 filt = any("could_match" in expr_vars(f) for f in calls(th, ("Vec::retain", "Iterator::filter"))
                            if "clauses" in expr_vars(f) or "goal_clauses" in expr_vars(f))
+            if not filt:
+                # the same thing written as a loop: `for c in <source> { if could_match(&c) { clauses.push(c) } }`
+                from kit import for_loops
+                for _l, it, _pat, lbody in for_loops(th):
+                    src_here = has_call(it, s) or (s == "program_clauses_that_could_match" and ({"clauses", "goal_clauses"} & expr_vars(it)))
+                    if not src_here:
+                        continue
+                    pushes = [c for c in calls(lbody, "Vec::push")]
+                    guarded = []
+                    for n_ in walk(lbody):
+                        if n_.get("k") == "if" and ("could_match" in expr_vars(n_["cond"]) or has_call(n_["cond"], "could_match")):
+                            guarded += [id(c) for c in calls(n_["then"], "Vec::push")]
+                    if pushes and all(id(c) in guarded for c in pushes):
+                        filt = True
             if filt:
                 ck.ok(R, inst, "filtered by could_match")
             else:
@@ -136,7 +150,7 @@ def run(ck, facts, tier):
     for key in (BT, SFC):
         b = facts.body(key)
         if b:
-            cs = [c for t in thir_all(facts, b) for c in calls(t, "could_match")]
+            cs = [c for c in calls(facts.thir(key), "could_match")]         # closures and single-use helpers spliced in
             cm[key] = {(c.get("res") or c.get("fn")) for c in cs}
     if len(cm) == 2 and cm[BT] == cm[SFC] and cm[BT]:
         ck.ok(R, "same-filter-function", str(sorted(cm[BT])))
